@@ -155,6 +155,20 @@ def type_census(value):
         return frozenset(["<irregular: %s>" % e])
 
 
+def identity_signature(value):
+    """ids of the container, of every entry (in order) and of every leaf value / key object, computed
+    with C-level iteration; None if the payload does not have the expected shape."""
+    import itertools
+    chain = itertools.chain.from_iterable
+    try:
+        if isinstance(value, dict):
+            lists = list(value.values())
+            return (id(value), list(map(id, value)), list(map(id, lists)), list(map(id, chain(lists))))
+        return (id(value), list(map(id, value)), list(map(id, chain(map(dict.values, value)))))
+    except TypeError:
+        return None
+
+
 class RegistrySnapshot:
     def __init__(self):
         reg = lib.registry._registry
@@ -164,6 +178,9 @@ class RegistrySnapshot:
                          for kk, vv in v.items()} for k, v in reg["iban"].items()}
         self.iban_order = list(reg["iban"])
         self.types = {k: type_census(v) for k, v in self.big.items()}
+        # identity signature of the LIVE payload (this object is created in the pristine process and
+        # used in forks of it, where addresses are the same): containers, entries and leaf values
+        self.idsig = {k: identity_signature(v) for k, v in reg.items() if k != "iban"}
 
     def check(self):
         """-> None or a description of the first difference."""
@@ -172,6 +189,11 @@ class RegistrySnapshot:
             return f"registry keys changed: {self.keys} -> {list(reg)}"
         for k, snap in self.big.items():
             cur = reg[k]
+            sig = identity_signature(cur)
+            if sig is not None and sig == self.idsig.get(k):
+                # the very same container, entry and (immutable) leaf objects in the same order:
+                # nothing was added, removed, reordered or rebound - no need to compare contents
+                continue
             if type(cur) is not type(snap):
                 return f"registry[{k!r}] changed type"
             if type_census(cur) != self.types[k]:
